@@ -348,6 +348,7 @@ func runHistory(spec string) histResult {
 	// laid out up-front
 	type seg struct{ first, last int }
 	streamOf := map[int]*enum.FragReader{}
+	segEnd := map[int]int{} // mode "same": offset in its stream at which the segment of operation i ends
 	segBytes := func(o hop) ([]byte, error) {
 		switch o.kind {
 		case "ok":
@@ -393,6 +394,7 @@ func runHistory(spec string) histResult {
 				return histResult{Fail: -1, Bad: e.Error()}
 			}
 			cur = append(cur, b...)
+			segEnd[i] = len(cur)
 			members = append(members, i)
 			if o.kind == "eof" {
 				m := enum.EOFSeparate
@@ -478,6 +480,15 @@ func runHistory(spec string) histResult {
 				}
 				if used > 28 {
 					return fail(i, "payload-read", "Read refused (%v) but took %d bytes from the stream (the header is 28)", err, used)
+				}
+				if mode == "same" {
+					// where a refusal leaves the stream is not specified (a
+					// reader may stop at the first bad field): the owner of the
+					// stream resynchronises at the start of the next message
+					if skip := segEnd[i] - rd.Pos(); skip > 0 {
+						io.CopyN(io.Discard, rd, int64(skip))
+					}
+					rdBase = rd.Pos()
 				}
 			case "eof":
 				if err == nil {
